@@ -554,7 +554,7 @@ def families(kind, mid):
 
 def nil_template_families(kind, mid):
     """C14-1: entries of a template map that are "" or null — accepted at load and a nil dereference at execution on
-    the unpatched tree, refused at load with fixes/C14-1.patch (the model).  Only with VERIF_C14_NIL_TEMPLATES=1."""
+    the tree before fix C14-1, refused at load since (the model).  VERIF_C14_NIL_TEMPLATES=0 leaves the family out."""
     t = type_of(kind, mid)
     if t in ("authz/remote", "ctx/generic"):
         return [[{"values": {"v": ""}}, {"values": {"v": None}}, {"values": {"v": "<nil>"}}]]
@@ -564,7 +564,7 @@ def nil_template_families(kind, mid):
 
 
 import os as _os
-if _os.environ.get("VERIF_C14_NIL_TEMPLATES") == "1":
+if _os.environ.get("VERIF_C14_NIL_TEMPLATES", "1") == "1":
     _plain_families = families
 
     def families(kind, mid):     # noqa: F811
